@@ -41,6 +41,7 @@ import PercevalModel.Model.C08Glue
 import PercevalModel.Lemmas.C08Thr
 import PercevalModel.Lemmas.C08Sample
 import PercevalModel.Lemmas.C08Mix
+import PercevalModel.Lemmas.C08Hist
 import Mathlib.Algebra.Order.Field.Rat
 
 set_option linter.unusedSectionVars false
@@ -1523,6 +1524,93 @@ theorem sample_quirk_witness :
   · have h3 := (sample_restarts_after_empty_kernel (1 / 2 : ℚ) [1] [] 2 [.none] [] (.det (.wired 2 2))
       rfl hk (by rw [hty2]; exact ⟨by decide, by decide⟩)).2.1 rfl
     exact h3
+
+/-! ## histories that change `global_params['min_p']` between the calls on one instance (extension round 4)
+
+`Model/C08Hist.lean`: an operation carries the `min_p` in force when it runs.  The repaired code
+(fixes/C08-detect-cache-stale-minp.diff: `_sync_cache()` empties `_cache` when `min_p` differs from the value the
+cached dictionaries were computed with) is the main model; the pinned code (cache looked up by photon count alone) is
+kept as `fixed = false` with its exact law and the witness of the defect. -/
+section minpHistory
+variable {K : Type} [Field K] [LinearOrder K]
+
+/-- **a long-lived `Detector` answers as a fresh one at the CURRENT `min_p`** — over ANY history of `detect(n)` calls
+with ANY sequence of `min_p` values (memo table of `_cond_probability`, `_cache` and `_cache_min_p` threaded through).
+Together with `detect_fold_minp` / `kernel_entry_minp` every answer is the click law of the physical description with
+exactly the contributions not above the current `min_p` removed. -/
+theorem detect_history_minp_eq_fresh (d : Det) (ops : List (K × ℕ)) :
+    (SM.run (detectInstH true d) ⟨⟨[], []⟩, none⟩ ops).2 = ops.map fun op => (op.2, d.detect op.1 op.2) :=
+  run_outputs_eq_map (detectInstH true d) (InstH.Valid d) (fun op => (op.2, d.detect op.1 op.2))
+    (fun s op h => detectInstH_fixed_step d s op h) ⟨⟨[], []⟩, none⟩ (InstH.valid_init d) ops
+
+/-- the same for `BSLayeredPPNR`, over any history of `detect(n)` at any `min_p` and `clear_cache()` calls -/
+theorem bs_history_minp_eq_fresh (L : ℕ) (r : K) (ops : List (Option (K × ℕ))) :
+    (SM.run (bsInstH true L r) ⟨[], none⟩ ops).2 = ops.map (bsFresh L r) :=
+  run_outputs_eq_map (bsInstH true L r) (BsH.Valid L r) (bsFresh L r)
+    (fun s op h => bsInstH_fixed_step L r s op h) ⟨[], none⟩
+    ⟨fun p h => (by cases h), fun _ => rfl⟩ ops
+
+/-- **exact law of the PINNED code**: along any history every `detect(n)` returns the fresh answer at the `min_p` of
+the FIRST call with that photon count (`staleOuts`), whatever `min_p` is now. -/
+theorem detect_history_minp_pinned_law (d : Det) (ops : List (K × ℕ)) :
+    (SM.run (detectInstH false d) ⟨⟨[], []⟩, none⟩ ops).2 = staleOuts d [] ops := by
+  have key : ∀ (ops pre : List (K × ℕ)) (s : InstH K), InstH.Stale d pre s →
+      (SM.run (detectInstH false d) s ops).2 = staleOuts d pre ops := by
+    intro ops
+    induction ops with
+    | nil => intro pre s _; rfl
+    | cons op rest ih =>
+      intro pre s h
+      obtain ⟨h1, h2⟩ := detectInstH_stale_step d pre s op h
+      simp only [SM.run, staleOuts]
+      rw [h2, ih _ _ h1]
+  exact key ops [] _ (InstH.stale_init d)
+
+/-- the pinned code is transparent as long as `min_p` never changes (the earlier `detect_history_eq_fresh`, here as a
+corollary of the exact law): the defect needs two calls with the same photon count at different `min_p` -/
+theorem detect_history_minp_pinned_constant (d : Det) (minP : K) (ns : List ℕ) :
+    (SM.run (detectInstH false d) ⟨⟨[], []⟩, none⟩ (ns.map fun n => (minP, n))).2 =
+      ns.map fun n => (n, d.detect minP n) := by
+  rw [detect_history_minp_pinned_law]
+  have key : ∀ (ns : List ℕ) (pre : List (K × ℕ)), (∀ e ∈ pre, e.1 = minP) →
+      staleOuts d pre (ns.map fun n => (minP, n)) = ns.map fun n => (n, d.detect minP n) := by
+    intro ns
+    induction ns with
+    | nil => intro pre _; rfl
+    | cons n rest ih =>
+      intro pre hp
+      simp only [List.map_cons, staleOuts]
+      have hf : (firstP pre n).getD minP = minP := by
+        unfold firstP
+        cases hfind : pre.find? fun e => e.2 = n with
+        | none => rfl
+        | some e => simpa using hp e (List.mem_of_find?_eq_some hfind)
+      rw [hf, ih (pre ++ [(minP, n)])]
+      intro e he
+      rcases List.mem_append.mp he with he | he
+      · exact hp e he
+      · simp at he; rw [he]
+  exact key ns [] (by intro e he; cases he)
+
+/-- **the defect of the pinned tree** (`Detector.ppnr(3)`: `detect(4)` first at `min_p = 1/20`, then at `min_p = 0`):
+the second call returns the dictionary of the first, without the reading `|1>` (probability 1/27) -/
+theorem detect_history_minp_fails_on_current_code :
+    ¬ ∀ (d : Det) (ops : List (ℚ × ℕ)),
+      (SM.run (detectInstH false d) ⟨⟨[], []⟩, none⟩ ops).2 = ops.map fun op => (op.2, d.detect op.1 op.2) := by
+  intro h
+  have h1 := h (.wired 3 3) [(1 / 20, 4), (0, 4)]
+  rw [detect_history_minp_pinned_law] at h1
+  have ha : detectWired 3 3 (20⁻¹ : ℚ) 4 = [(2, 14 / 27), (3, 4 / 9)] := by
+    norm_num [detectWired, detectLoop, List.range', addP, bump, condProb]
+  have hb : detectWired 3 3 (0 : ℚ) 4 = [(1, 1 / 27), (2, 14 / 27), (3, 4 / 9)] := by
+    norm_num [detectWired, detectLoop, List.range', addP, bump, condProb]
+  simp [staleOuts, firstP, Det.detect, Det.type, hb] at h1
+  rw [ha] at h1
+  simp at h1
+
+end minpHistory
+
+
 
 /-! ## non-vacuity and concrete values (evaluated by the kernel over ℚ) -/
 section examples
